@@ -368,7 +368,7 @@ class EquationSolver(object):
                 # invalid data.
                 try:
                     new_value[var] = eval(eqn, globals(), initial)
-                except ZeroDivisionError as er:
+                except (ZeroDivisionError, OverflowError) as er:
                     # We can add new error types that we are willing to temporarily accept.
                     new_value[var] = initial[var]
                     had_evaluation_errors = True
